@@ -48,6 +48,9 @@ type Plan struct {
 	// C06: after the main run, a validly signed header with a wrong PrevStateRoot is recorded ahead of the blocks
 	HeadersFirst bool `json:"headers_first,omitempty"`
 	KnownHeader  bool `json:"known_header,omitempty"` // C06: genuine header recorded ahead of the block, block with another witness
+	// TailSeed seeds the decision stream that answers once the explicit tape is used up (0: every further decision is
+	// the default one - no optional fault, no optional check)
+	TailSeed uint64 `json:"plan_tail_seed,omitempty"`
 }
 
 // Engine implements sim.Engine.
@@ -104,7 +107,15 @@ func drawTape(rt *rapid.T, n int) []uint32 {
 	return rapid.SliceOfN(rapid.Uint32Range(0, 1<<16), 0, n).Draw(rt, "tape")
 }
 
-func (Engine) Draw(rt *rapid.T, prop, tier string) any {
+func (e Engine) Draw(rt *rapid.T, prop, tier string) any {
+	p := e.drawPlan(rt, prop, tier).(*Plan)
+	if rapid.IntRange(0, 3).Draw(rt, "tailon") != 0 {
+		p.TailSeed = rapid.Uint64Range(1, 1<<40).Draw(rt, "plantail")
+	}
+	return p
+}
+
+func (Engine) drawPlan(rt *rapid.T, prop, tier string) any {
 	p := &Plan{}
 	p.Proto = drawProto(rt)
 	maxB := 24
@@ -182,7 +193,7 @@ func (r *run) violate(v *sim.Violation) {
 // Run executes one plan.
 func (Engine) Run(t *testing.T, prop string, planAny any) *sim.Outcome {
 	plan := planAny.(*Plan)
-	r := &run{t: t, prop: prop, plan: plan, out: sim.NewOutcome(), log: sim.NewLog(4000), tape: sim.NewTape(plan.Tape),
+	r := &run{t: t, prop: prop, plan: plan, out: sim.NewOutcome(), log: sim.NewLog(4000), tape: &sim.Tape{Data: plan.Tape, Tail: plan.TailSeed},
 		ref: map[uint32]*Observation{}, raw: map[uint32][]byte{}, blks: map[uint32]*block.Block{}}
 	start := time.Time{}
 	bv := sim.Bubble(t, func() {
